@@ -196,12 +196,15 @@ def convert(h, r, pivot=0):
             if e["ev"] == "end":
                 acts.append({"k": "end"})
                 continue
-            if e["path"] is None or not e["path"]["in"]:
-                raise TraceProblem("yield without a path inside the scenario")
-            text = os.path.normpath(C.text(e["path"]["p"]))
-            if text not in paths:
-                raise TraceProblem("yielded path %r is not a position of the scenario" % text)
-            pos = paths[text]
+            if e["path"] is None and e["err"] != "none":
+                text, pos = None, []      # an error item that names no path: TLC infers the position
+            else:
+                if e["path"] is None or not e["path"]["in"]:
+                    raise TraceProblem("yield without a path inside the scenario")
+                text = os.path.normpath(C.text(e["path"]["p"]))
+                if text not in paths:
+                    raise TraceProblem("yielded path %r is not a position of the scenario" % text)
+                pos = paths[text]
             last = (k == len(idx) - 1)
             emitted = last and b["item"]["k"] in ("entry", "error")
             acts.append({"k": "yield", "pos": pos, "isdir": e["is_dir"], "err": e["err"]})
@@ -338,13 +341,16 @@ def run_and_validate(prop, scenarios, tag, v, as_nobody=False, pivots=None):
 
 # ------------------------------------------------------------------ exhaustive model checking
 
-def model_check(cfg_name, consts, invariants, properties=(), constraint=None, timeout=3000):
+def model_check(cfg_name, consts, invariants, properties=(), constraint=None, timeout=3000, spec=None):
     cfg = os.path.join(C.SPEC, "WalkMC_run_%s_%d.cfg" % (cfg_name, os.getpid()))
     with open(cfg, "w") as f:
         f.write("CONSTANTS\n  Dev = {}\n  Scenarios = {}\n")
         for k, val in consts.items():
             f.write("  %s = %s\n" % (k, val))
-        f.write("INIT MCInit\nNEXT Next\n")
+        if spec:
+            f.write("SPECIFICATION %s\n" % spec)
+        else:
+            f.write("INIT MCInit\nNEXT Next\n")
         if constraint:
             f.write("CONSTRAINT %s\n" % constraint)
         for i in invariants:
